@@ -463,4 +463,24 @@ def xp1String : NumArg → Str
   | .finf true => [0x2D, 73, 110, 102, 105, 110, 105, 116, 121]
   | .flt neg digits decpt => canonNumber neg digits decpt
 
+/-! ### The default collation (XPath 3.1 §2.1.1 static context; F&O §5.3.1 "Choosing a collation")
+"If the function specifies an explicit collation … otherwise the default collation from the static
+context is used."  The 2-argument forms of contains, starts-with, ends-with, substring-before,
+substring-after and compare are the 3-argument forms with the static default substituted. -/
+
+def chosenCollation (default : Collation) (arg : Option Collation) : Collation :=
+  match arg with
+  | some c => c
+  | none => default
+
+/-! ### Repeated evaluation (XPath 3.1 §3.9 `for`)
+`for $x in X, $y in Y return f($x, $y)` is the concatenation, in order, of the results of `f` on every
+pair: every call is evaluated on its own bindings only. -/
+
+def forProduct2 {α : Type} (f : Str → Str → α) (xs ys : List Str) : List α :=
+  xs.flatMap fun x => ys.map fun y => f x y
+
+def forProduct3 {α : Type} (f : Str → Str → Str → α) (xs ys zs : List Str) : List α :=
+  xs.flatMap fun x => ys.flatMap fun y => zs.map fun z => f x y z
+
 end EPV.FOStrings
